@@ -113,6 +113,7 @@ def run_task(task):
         ex = Explorer(prefix, logic=logic, max_branches=h.meta.get("max_branches", 4000), shard=task.get("shard"))
         core.CUR = ex
         ctx = Ctx("sym", ex=ex, params=params)
+        ctx.hname = hname
         ctx.path_index = res["paths"]
         ctx.canary = canary
         ctx.prob = None
